@@ -283,6 +283,9 @@ impl C20 {
             Ok(x) => x,
             Err(e) => return CaseOut::skip(src.to_string(), format!("oracle-error: {e}")),
         };
+        if nc == "limit:timeout" {
+            return CaseOut::skip(src.to_string(), "v8-timeout");
+        }
         let v8 = Trace { prints: np, completion: Completion::Value(String::new()) };
         if boa.prints != v8.prints || boa.completion.render() != nc {
             let k = boa.prints.iter().zip(v8.prints.iter()).position(|(a, b)| a != b).unwrap_or(0);
